@@ -30,7 +30,7 @@ setup)
 	;;
 check)
 	build
-	exec "$BIN" check -prop "$2" -tier "${3:-${VERIF_TIER:-quick}}" -seed "${VERIF_SEED:-1}" -root "$ROOT" -scale "${VERIF_SCALE:-1}"
+	exec "$BIN" check -prop "$2" -tier "${3:-${VERIF_TIER:-quick}}" -seed "${VERIF_SEED:-1}" -root "$ROOT" -out "${VERIF_OUT:-$ROOT}" -scale "${VERIF_SCALE:-1}"
 	;;
 replay)
 	build
